@@ -113,7 +113,7 @@ theorem C17_completion_runs_same_policy_step (c : Ctx) (s : St) (d : DagRef) (n 
     (below : List Frame) (k : Nat) (kw : Kwargs) (inv : Nat) (o : BodyOutcome) (tk : Task)
     (h : s.tasks[c.t]? = some tk) (hm : tk.mustCancel = false)
     (hf : tk.frames = .node d n force (.body k kw inv) :: below) (hst : tk.st = .runnable (.body o)) :
-    stepTask c s = some (nodeAfterBody c s [] d n force below k kw inv o) := by
+    stepTask c s = some (nodeAfterBody c s [] d n force below k kw inv (c.P.body n kw inv k)) := by
   simp [stepTask, h, hm, hf, hst]
 
 /-- **a missing pool fails fast**: error result, nothing spawned, no node body -/
